@@ -184,7 +184,7 @@ def base58_positional(ex, L):
 
 
 
-@ob("C06", "base58_encoder_writes_the_digits_of_its_integer", quick=[dict(L=l) for l in (1, 2, 10, 11, 21, 34)], thorough=[dict(L=l) for l in (1, 2, 9, 10, 11, 20, 21, 30, 31, 34, 51, 52)],
+@ob("C06", "base58_encoder_writes_the_digits_of_its_integer", quick=[dict(L=l) for l in (1, 2, 10, 11, 21, 34)], thorough=[dict(L=l) for l in (1, 2, 9, 10, 11, 20, 21, 30, 31, 34)],
     bound="every integer with exactly L base58 digits (58^(L-1) <= i < 58^L, symbolic; L = 1 includes 0): _b58encode_from_int writes L characters of the alphabet, no leading '1', "
           "whose positional value is i (quotients and remainders by 58 and 58^10 as integer division witnesses)",
     functions=["btclib.base58._b58encode_from_int"], min_ok=1, timeout=600)
